@@ -1,6 +1,7 @@
 package main
 
 import (
+	"runtime"
 	"bufio"
 	"fmt"
 	"math"
@@ -16,10 +17,16 @@ import (
 func runDist() {
 	sc := bufio.NewScanner(os.Stdin)
 	sc.Buffer(make([]byte, 1<<20), 1<<26)
+	n := 0
 	for sc.Scan() {
 		f := strings.Fields(sc.Text())
 		if len(f) == 0 {
 			continue
+		}
+		// a collection every few pairs: the argument slices are fresh allocations, so their addresses get reused;
+		// a distance may depend on the numbers in its arguments only
+		if n++; n%17 == 0 {
+			runtime.GC()
 		}
 		func() {
 			defer func() {
